@@ -10,6 +10,8 @@ use crate::error::*;
 use crate::exception::ExceptionCode;
 use crate::server::handler::{RequestHandler, ServerHandlerMap};
 use crate::server::request::{Request, RequestDisplay};
+#[cfg(feature = "verif-hooks")]
+use crate::verif::sync::LockExt as _;
 
 use scursor::ReadCursor;
 use std::sync::Arc;
